@@ -75,6 +75,21 @@ func Bytes(name string, n int) []byte {
 	return b
 }
 func String(name string, n int) string { return string(Bytes(name, n)) }
+// Big returns the replayed big integer.
+func Big(name string) *big.Int {
+	load()
+	occ[name]++
+	k := name
+	if occ[name] > 1 {
+		k = fmt.Sprintf("%s#%d", name, occ[name])
+	}
+	z, ok := new(big.Int).SetString(rp.Values[k], 10)
+	if !ok {
+		return new(big.Int)
+	}
+	return z
+}
+
 func Choice(name string, n int) int {
 	if n <= 1 {
 		return 0
